@@ -681,7 +681,10 @@ class Criterion(Term):
         crit = EmptyCriterion()
 
         for term in _in_stable_order(terms):
-            crit |= term  # type:ignore[assignment]
+            # (the first term need not be a Criterion: CASE, a parameter ... have no "|" of their own)
+            crit = (  # type:ignore[assignment]
+                term if isinstance(crit, EmptyCriterion) else Criterion.__or__(crit, term)
+            )
 
         return crit
 
@@ -690,7 +693,7 @@ class Criterion(Term):
         crit = EmptyCriterion()
 
         for term in _in_stable_order(terms):
-            crit &= term
+            crit = term if isinstance(crit, EmptyCriterion) else Criterion.__and__(crit, term)
 
         return crit
 
